@@ -48,6 +48,10 @@ def cases(ctx):
         comp = r.random() < 0.5
         prefix = r.choice([0, 0x6F, r.randrange(256)])
         yield {"k": "key", "x": "%064x" % x, "compressed": comp, "prefix": prefix}
+        if i % 2 == 0:
+            # the negated key right afterwards (same X coordinate, other parity), then the first key again
+            yield {"k": "key", "x": "%064x" % (ec.N - x), "compressed": comp, "prefix": prefix, "twin": True}
+            yield {"k": "key", "x": "%064x" % x, "compressed": not comp, "prefix": prefix, "twin": True}
         # a sequence of network changes on one address object, starting from a string / hash with an arbitrary prefix
         steps = []
         for _ in range(r.randrange(1, 4)):
@@ -69,6 +73,21 @@ def cases(ctx):
         # wrong payload lengths with a correct checksum
         for body in (x.to_bytes(32, "big")[:31], x.to_bytes(32, "big") + b"\x02", x.to_bytes(32, "big") + b"\x01\x01", x.to_bytes(32, "big") + b"\x00", b"", x.to_bytes(32, "big")[:1], x.to_bytes(32, "big") + b"\x01" * 3):
             yield {"k": "wif_corrupt", "s": base58.check_encode(b"\x80" + body)}
+        # the 33-byte "big integer" form 00 || key (key with and without its top bit set), with and without a trailing byte
+        hi = (x | (1 << 255)) % ec.N or 1
+        for kb in (hi.to_bytes(32, "big"), x.to_bytes(32, "big")):
+            for tail in (b"", b"\x01", b"\x00", b"\x02"):
+                yield {"k": "wif_corrupt", "s": base58.check_encode(b"\x80\x00" + kb + tail)}
+            for raw_ in (b"\x00" + kb, kb + b"\x00", kb + b"\x01", kb[:31], kb[1:], b"\x00" * 2 + kb, kb + kb):
+                yield {"k": "raw_len", "hex": raw_.hex()}
+        if i % 8 == 0:
+            yield {"k": "raw_len", "hex": ""}
+        # the locking script does not depend on the network prefix: every prefix value
+        if i < 2 or t:
+            h20 = gen.rbytes(r, 20).hex()
+            for p_ in range(256):
+                if (p_ + i) % (1 if t else 2) == 0 or p_ in (0x05, 0xC4, 0x6F, 0x00):
+                    yield {"k": "addr_hash", "hash": h20, "prefix": p_}
         for bad in (0, ec.N, ec.N + 1, (1 << 256) - 1):
             yield {"k": "wif_corrupt", "s": base58.check_encode(b"\x80" + bad.to_bytes(32, "big") + (b"\x01" if comp else b""))}
     # every prefix byte once per run (spread over shards)
@@ -153,6 +172,8 @@ def judge(ctx, case):
     ctx.hit(k)
     ctx.nontrivial()
     if k == "key":
+        if case.get("twin"):
+            ctx.hit("neighbour_sequence")
         x = int(case["x"], 16)
         comp = case["compressed"]
         if x in EDGE:
@@ -332,6 +353,15 @@ def judge(ctx, case):
                 ctx.viol("invalid address accepted: %s" % why, {"s": s, "parsed": str(b["ok"]["hash"])})
             elif "panic" in b:
                 ctx.note("address parser panics (C09): %s" % why)
+    elif k == "raw_len":
+        ctx.hit("raw_key_wrong_length")
+        for via in ("bytes", "hex_str"):
+            b = ctx.call({"op": "privkey", via: case["hex"]})
+            ctx.ev()
+            if "ok" in b:
+                ctx.viol("raw private key of %d bytes accepted (PrivateKey::%s)" % (len(case["hex"]) // 2, "from_bytes" if via == "bytes" else "from_hex"), {"hex": case["hex"], "as": b["ok"]["bytes"]})
+            elif "panic" in b:
+                ctx.note("private key parser panics on a wrong length (C09)")
     elif k == "wif_corrupt":
         s = case["s"]
         payload = base58.check_decode(s)
